@@ -128,7 +128,9 @@ func (m *Mast) diffOne(
 		return ErrNoMoreDiffs
 	} else if o == nil && n != nil {
 		if n.considerLink != nil {
-			if !m.alreadyNotified(ctx, "new", dc.alreadyNotifiedNewLink, n.considerLink) {
+			if seen, err := m.alreadyNotified(ctx, "new", dc.alreadyNotifiedNewLink, n.considerLink); err != nil {
+				return err
+			} else if !seen {
 				dc.addedLink = n.considerLink
 			}
 			newNode, err := m.load(ctx, n.considerLink)
@@ -143,7 +145,9 @@ func (m *Mast) diffOne(
 		}
 	} else if o != nil && n == nil {
 		if o.considerLink != nil {
-			if !dc.oldMast.alreadyNotified(ctx, "old", dc.alreadyNotifiedOldLink, o.considerLink) {
+			if seen, err := dc.oldMast.alreadyNotified(ctx, "old", dc.alreadyNotifiedOldLink, o.considerLink); err != nil {
+				return err
+			} else if !seen {
 				dc.removedLink = o.considerLink
 			}
 			oldNode, err := dc.oldMast.load(ctx, o.considerLink)
@@ -162,10 +166,14 @@ func (m *Mast) diffOne(
 				if m.debug {
 					fmt.Printf("  old(consider) new(consider) and links differ\n")
 				}
-				if !dc.oldMast.alreadyNotified(ctx, "old", dc.alreadyNotifiedOldLink, o.considerLink) {
+				if seen, err := dc.oldMast.alreadyNotified(ctx, "old", dc.alreadyNotifiedOldLink, o.considerLink); err != nil {
+					return err
+				} else if !seen {
 					dc.removedLink = o.considerLink
 				}
-				if !m.alreadyNotified(ctx, "new", dc.alreadyNotifiedNewLink, n.considerLink) {
+				if seen, err := m.alreadyNotified(ctx, "new", dc.alreadyNotifiedNewLink, n.considerLink); err != nil {
+					return err
+				} else if !seen {
 					dc.addedLink = n.considerLink
 				}
 				oldNode, err := dc.oldMast.load(ctx, o.considerLink)
@@ -213,7 +221,9 @@ func (m *Mast) diffOne(
 				}
 			}
 		} else if o.considerLink != nil && n.considerLink == nil {
-			if !dc.oldMast.alreadyNotified(ctx, "old", dc.alreadyNotifiedOldLink, o.considerLink) {
+			if seen, err := dc.oldMast.alreadyNotified(ctx, "old", dc.alreadyNotifiedOldLink, o.considerLink); err != nil {
+				return err
+			} else if !seen {
 				dc.removedLink = o.considerLink
 			}
 			oldNode, err := dc.oldMast.load(ctx, o.considerLink)
@@ -223,7 +233,9 @@ func (m *Mast) diffOne(
 			dc.oldStack.pushNode(oldNode)
 			dc.newStack.push(n)
 		} else if o.considerLink == nil && n.considerLink != nil {
-			if !m.alreadyNotified(ctx, "new", dc.alreadyNotifiedNewLink, n.considerLink) {
+			if seen, err := m.alreadyNotified(ctx, "new", dc.alreadyNotifiedNewLink, n.considerLink); err != nil {
+				return err
+			} else if !seen {
 				dc.addedLink = n.considerLink
 			}
 			newNode, err := m.load(ctx, n.considerLink)
@@ -260,7 +272,7 @@ func (m *Mast) diffOne(
 	return nil
 }
 
-func (m *Mast) alreadyNotified(ctx context.Context, name string, linkByHeight map[uint8]interface{}, link interface{}) bool {
+func (m *Mast) alreadyNotified(ctx context.Context, name string, linkByHeight map[uint8]interface{}, link interface{}) (bool, error) {
 	path := []interface{}{}
 	myLink := link
 	var keyHeight uint8
@@ -268,16 +280,20 @@ func (m *Mast) alreadyNotified(ctx context.Context, name string, linkByHeight ma
 		path = append(path, myLink)
 		node, err := m.load(ctx, myLink)
 		if err != nil {
-			return false
+			return false, fmt.Errorf("load: %w", err)
 		}
 		if len(node.Link) == 1 {
+			if node.Link[0] == nil {
+				// an entry-less node (the top node of an empty tree): no keyed descendant
+				return false, nil
+			}
 			myLink = node.Link[0]
 			continue
 		}
 		key := node.Key[0]
 		keyHeight, err = m.keyLayer(key, m.branchFactor)
 		if err != nil {
-			return false
+			return false, fmt.Errorf("key layer: %w", err)
 		}
 		break
 	}
@@ -295,7 +311,7 @@ func (m *Mast) alreadyNotified(ctx context.Context, name string, linkByHeight ma
 	if res && m.debug {
 		fmt.Printf("already notified %s\n", name)
 	}
-	return res
+	return res, nil
 }
 
 type iterItemStack struct {
